@@ -8,8 +8,11 @@
 EXTENDS TestifyMock
 
 C(id, names, pk, vk, rk, unroll, nm) ==
-  [id |-> id, names |-> names, pk |-> pk, vk |-> vk, rk |-> rk, unroll |-> unroll, nm |-> nm, gen |-> FALSE]
-\* generic interface I[K any]: every "string" position is written K in the source and instantiated with string
+  [id |-> id, names |-> names, pk |-> pk, vk |-> vk, rk |-> rk, unroll |-> unroll, nm |-> nm, gen |-> FALSE, rn |-> << >>]
+\* rn: names of the results (empty: unnamed results)
+CR(id, names, pk, vk, rk, rn, unroll, nm) == [C(id, names, pk, vk, rk, unroll, nm) EXCEPT !.rn = rn]
+\* generic interface I[K comparable, V any]: every "string" position is written K, every "any" position V in the
+\* source; instantiated with [string, interface{}]
 CG(id, names, pk, vk, rk, unroll, nm) == [C(id, names, pk, vk, rk, unroll, nm) EXCEPT !.gen = TRUE]
 
 \* one variadic shape under the three settings
@@ -31,6 +34,10 @@ QuickClasses ==
     C("n11", <<"x">>, <<"string">>, "none", <<"int">>, "unset", 2),
     C("n12", <<"a">>, <<"int">>, "none", <<"string", "error", "ptr">>, "unset", 1),
     C("n14", <<"e", "x">>, <<"error", "any">>, "none", << >>, "unset", 1),
+    CR("n15", <<"Run", "Return", "RunAndReturn">>, <<"string", "int", "bool">>, "none", <<"int", "error">>, <<"ok", "run">>, "unset", 1),
+    C("n16", <<"Call", "On">>, <<"nslice", "struct">>, "none", <<"nslice", "struct", "map">>, "unset", 1),
+    CG("g03", <<"k", "v">>, <<"string", "any">>, "none", <<"any", "string">>, "unset", 1),
+    CG("g04u", <<"k", "vs">>, <<"string">>, "any", <<"any">>, "unset", 1),
     C("n13", <<"a", "_">>, <<"any", "bool">>, "none", <<"bool">>, "true", 1),
     CG("g01", <<"k", "n">>, <<"string", "int">>, "none", <<"string", "error">>, "unset", 1),
     CG("g02u", <<"n", "ks">>, <<"int">>, "string", <<"string">>, "unset", 1),
@@ -75,6 +82,9 @@ ThoroughClasses == QuickClasses \cup ThoroughExtra
 \* the classes of a run are printed (<<"CLASS", json>>) so that the harness materialises exactly them
 ASSUME EmitClasses
 ASSUME \A c \in QuickPairClasses : PrintT(<<"PAIR", ToJson(c.id)>>)
+\* classes on which other instances of the mock share the TestingT
+MultiClasses == {c \in QuickClasses : c.id \in {"n00", "n01", "n04", "n11", "g01", "v01t", "v02u", "v06u"}}
+ASSUME \A c \in MultiClasses : PrintT(<<"MULTI", ToJson(c.id)>>)
 \* classes explored with the wide (Level 2) alphabets in the thorough tier
 WideClasses == {c \in QuickClasses : c.vk = "none" \/ c.id \in {"v01t", "v01u", "v03f", "v04t", "v07f", "v08u", "g02u"}}
 ASSUME \A c \in WideClasses : PrintT(<<"WIDE", ToJson(c.id)>>)
